@@ -48,6 +48,9 @@ checks = {
  "C19": dict(cat="exploration", engine="simstream", tech="deterministic simulation of the pipe between a writing and a reading Framer (seeded cuts, short reads, failure at an offset) + independent frame codec as reference",
    text="Frames written by every Write* method with boundary and seeded parameters must equal the independent refframe encoding byte for byte and be read back as the same frames through a pipe that cuts and fails at seeded offsets (or fail with an I/O error, never a different frame, never above the read limit), header blocks reassembled across CONTINUATION by ReadMetaHeaders. Arbitrary frames / raw bytes: no panic, read limit respected, malformed frames and illegal HEADERS/CONTINUATION interleavings rejected with a code from the set RFC 7540 assigns (this clause is a pure function of the input: sampled, not decided by simulation).",
    note="SETTINGS value ranges and header-block opened by PUSH_PROMISE are judged one layer up (C13), not by the codec table. WriteHeaders cannot express 'padded with length 0' nor an all-zero priority; those are generated only on the arbitrary-bytes side.", ref="7/C19"),
+ "C14": dict(cat="exploration", engine="simfs", tech="seeded file-operation histories against the real certwatcher / fsnotify / kernel inotify, sequenced by a sentinel-file barrier after every step; reference model of the on-disk pair",
+   text="Histories of in-place writes (full / partial / garbage / empty), rename-over and Kubernetes-style symlinked-directory swaps on the two watched paths, either file order, mismatched pairs, same-key renewal, with a barrier after every step at which the presented pair is snapshotted (and every third step a real TLS handshake), optionally with a free-running observer during the steps. The presented pair must match its key, must have existed on disk as a complete pair, must be the new pair once a valid pair is fully in place, and the last good pair otherwise.",
+   note="The kernel's inotify and the filesystem are real (a stub event source would encode my belief about which events each update style produces - the very thing under test); the schedule between steps is controlled by the barrier, the event interleaving inside one step is the kernel's. Delete-then-create-later of a watched file is outside the three named update styles (O4) and not generated.", ref="5, 7/C14"),
  "C15": dict(cat="exploration", tech="deterministic simulation; routing oracle (exactly one of local answer / back-end record)",
    text="User-Agent variants x methods x protocols x probe flag through the real flag wiring; each request must be answered locally or seen by the back-end, never both or neither, according to the prefix predicate.",
    note="HTTP/1.1 strips optional whitespace around field values before the predicate applies; the oracle accounts for that.", ref="7/C15"),
@@ -65,6 +68,7 @@ m = {
  },
  "engines": [
   {"name": "simproxy", "path": "/verif/harness", "serves_properties": sorted(k for k in checks if checks[k].get("engine","simproxy")=="simproxy"), "kind_free_text": A},
+  {"name": "simfs", "path": "/verif/harness", "serves_properties": sorted(k for k in checks if checks[k].get("engine")=="simfs"), "kind_free_text": "engine C (simfs): certificate hot-reload against the real kernel; seeded history generator; sentinel-file barrier through the same fsnotify watcher after every step"},
   {"name": "simstream", "path": "/verif/harness", "serves_properties": sorted(k for k in checks if checks[k].get("engine")=="simstream"), "kind_free_text": "engine B (simstream): library surfaces whose only contact with nondeterminism is the byte stream handed to them; single goroutine; the stream is cut, short-read and failed at seeded offsets; same choice source, same replay format"},
  ],
  "checks": [],
